@@ -13,7 +13,7 @@
    is decided by the oracle on the correspondence run and by the theorems of C05Chunk (below,
    when present). *)
 From Coq Require Import String List Bool Ascii Arith NArith.
-From TxVerif Require Import Lib.Bytes Spec.Rfc1928 Spec.C06 Spec.C05 Model.Socks Proofs.C05Proofs.
+From TxVerif Require Import Lib.Bytes Spec.Rfc1928 Spec.C06 Spec.C05 Model.SocksTypes Model.Socks Proofs.C05Proofs Proofs.C05Relay.
 Import ListNotations.
 
 Theorem C05_done_at_most_once : forall cfg chunks lost,
@@ -31,6 +31,23 @@ Theorem C05_error_mapping : forall c, (c < 256)%N ->
   socks_error c = RErr (error_class c) (Some c).
 Proof. exact error_mapping. Qed.
 Print Assumptions C05_error_mapping.
+
+(* prompt relay: once relaying, every chunk -- whatever its size -- is handed to the application
+   whole, in the same operation, and the machine stays ready for the next one *)
+Theorem C05_relaying_is_prompt : forall cfg b bs,
+  op_recv cfg relaying_state (b :: bs) = (relaying_state, [EAppData (b :: bs)], true).
+Proof. exact relaying_relays_chunk. Qed.
+Print Assumptions C05_relaying_is_prompt.
+
+(* nothing withheld: a success reply sharing its segment with ANY payload creates the application,
+   reports success and hands over exactly that payload in the same operation *)
+Theorem C05_success_reply_with_payload : forall cfg rsv a1 a2 a3 a4 p1 p2 payload,
+  c_ty cfg = RConnect ->
+  op_recv cfg awaiting_reply (ch 5 :: ch 0 :: rsv :: ch 1 :: a1 :: a2 :: a3 :: a4 :: p1 :: p2 :: payload) =
+  (relaying_state,
+   [EAppCreated true; EDone RProto] ++ match payload with [] => [] | _ => [EAppData payload] end, true).
+Proof. exact success_reply_with_payload. Qed.
+Print Assumptions C05_success_reply_with_payload.
 
 (* the step invariant itself, for every fuel, state, input and argument *)
 Theorem C05_step_invariant : forall cfg fuel s i a, wfst s -> good' s (fire cfg fuel s i a).
